@@ -153,3 +153,15 @@ def data_uses(terms, data):
                 else:
                     uses.append(('bare', None, None, t))
     return uses
+
+
+def end_octet_guarded(kn, data, last, fe, fe_char):
+    """Do the path facts include data[last] == FRAME_END, in either of the
+    two spellings (index compare or one-byte slice compare)?"""
+    if kn.decide(T.compare('eq', T.index(data, last), fe)) is True:
+        return True
+    sl = T.slice_(data, last, T.add(last, 1))
+    if isinstance(fe_char, bytes) and \
+            kn.decide(T.compare('eq', sl, fe_char)) is True:
+        return True
+    return False
